@@ -342,6 +342,12 @@ def fold_bool(c):
         if c[1] in ("In", "NotIn") and b[0] == "dict" and is_literal_key(a) and all(is_literal_key(k) for k, _ in b[1]):
             present = any(k == a for k, _ in b[1])
             return ("bool", present if c[1] == "In" else not present)
+        if c[1] in ("Lt", "LtE", "Gt", "GtE") and ((a[0] == "call" and a[1] == "abs" and b[0] == "num") or (b[0] == "call" and b[1] == "abs" and a[0] == "num")):
+            # |k * pi^n * copysign(1, anything)| against a number: the magnitude is a constant (bisection steps d * s with s = +-1)
+            ma, mb = const_magnitude(a), const_magnitude(b)
+            if ma is not None and mb is not None and abs(ma - mb) > 1e-9 * max(ma, mb, 1e-300):
+                r = {"Lt": ma < mb, "LtE": ma <= mb, "Gt": ma > mb, "GtE": ma >= mb}[c[1]]
+                return ("bool", r)
         if a[0] in ("str", "num") and b[0] == a[0]:
             x, y = a[1], b[1]
             try:
@@ -402,6 +408,85 @@ def fold_bool(c):
         if len(names) == len(tys) and all(n in KNOWN_TYPE_NAMES for n in names):
             return ("bool", kind in names)
     return c
+
+
+def const_magnitude(t):
+    """|t| as a float when it does not depend on any input: products of numbers, powers of pi and copysign(c, x) factors"""
+    import math
+    h = t[0]
+    if h == "num":
+        return abs(float(t[1]))
+    if t == T.PI:
+        return math.pi
+    if h == "call" and t[1] == "abs" and len(t) == 3:
+        return const_magnitude(t[2])
+    if h == "call" and t[1] == "copysign" and len(t) == 4:
+        return const_magnitude(t[2])
+    if h == "mul":
+        r = 1.0
+        for x in t[1:]:
+            m = const_magnitude(x)
+            if m is None:
+                return None
+            r *= m
+        return r
+    if h == "pow" and t[2][0] == "num" and t[2][1].denominator == 1:
+        m = const_magnitude(t[1])
+        if m is None or (m == 0 and t[2][1] < 0):
+            return None
+        return m ** int(t[2][1])
+    if h == "add":
+        # a difference of two partial sums sharing all but one term (e0 - ef in a bisection): expand, cancel, and look at what is left
+        mono = _expand_sum(t)
+        if mono is not None and len(mono) == 1:
+            (fac, coef), = mono
+            r = abs(float(coef))
+            for f in fac:
+                m = const_magnitude(f)
+                if m is None:
+                    return None
+                r *= m
+            return r
+    return None
+
+
+def _expand_sum(t, limit=400):
+    """t as {sorted tuple of non-numeric factors: rational coefficient}, products distributed over sums; None if it grows beyond `limit`"""
+    def ex(x):
+        if x[0] == "num":
+            return {(): x[1]}
+        if x[0] == "add":
+            out = {}
+            for y in x[1:]:
+                e = ex(y)
+                if e is None:
+                    return None
+                for k, c in e.items():
+                    out[k] = out.get(k, 0) + c
+            return out if len(out) <= limit else None
+        if x[0] == "mul":
+            out = {(): Fraction(1)}
+            for y in x[1:]:
+                e = ex(y)
+                if e is None:
+                    return None
+                nxt = {}
+                for k1, c1 in out.items():
+                    for k2, c2 in e.items():
+                        k = tuple(sorted(k1 + k2, key=lambda z: z[0]))
+                        nxt[k] = nxt.get(k, 0) + c1 * c2
+                if len(nxt) > limit:
+                    return None
+                out = nxt
+            return out
+        # other factors are identified by object identity (terms are DAGs: hashing or printing a deep one is exponential); pi by name
+        atoms[id(x) if x != T.PI else 0] = x
+        return {((id(x) if x != T.PI else 0, ),): Fraction(1)}
+    atoms = {}
+    e = ex(t)
+    if e is None:
+        return None
+    return [(tuple(atoms[i[0]] for i in k), c) for k, c in e.items() if c != 0]      # a list: deep terms must not be hashed
 
 
 def is_literal_key(t):
